@@ -308,6 +308,31 @@ def values_normal_form(U):
             if obj.value_str(k) != text:
                 return ("values.normal-form", "obj#%d value_str(%d) %r != %r" %
                         (i, k, obj.value_str(k), text))
+        if str(dtype).endswith("-tuple") and len(obj.values):
+            # stored n-tuple values are lists: what this Property holds is valid input for every
+            # value-editing entry point of another Property of the same dtype (a throw-away one)
+            import odml
+            vals = obj.values
+            for how in ("extend", "extend(Property)", "insert"):
+                try:
+                    probe = odml.Property(name="probe", dtype=dtype, values=vals[:1])
+                    if how == "extend":
+                        probe.extend(vals)
+                    elif how == "extend(Property)":
+                        probe._unit = obj.unit      # (same unit: extend compares them)
+                        if probe.unit != obj.unit:
+                            continue
+                        probe.extend(obj)
+                    else:
+                        probe.insert(0, [vals[-1]])      # one value, itself a list
+                    got = probe.values
+                except Exception as exc:
+                    return ("values.normal-form", "obj#%d (dtype %s): %s refuses the stored values %r "
+                            "of the Property: %s: %s" % (i, dtype, how, vals, type(exc).__name__, exc))
+                want = ([vals[-1]] + vals[:1]) if how == "insert" else vals[:1] + vals
+                if got != want:
+                    return ("values.normal-form", "obj#%d (dtype %s): %s of the stored values %r "
+                            "gives %r" % (i, dtype, how, vals, got))
     return None
 
 
@@ -335,6 +360,17 @@ def mon_values(ctx):
             if ctx.raised and name == "reassign_values":
                 return ("values.normal-form", "p.values = p.values raised %s: %s" %
                         (ctx.outcome[1], ctx.outcome[2]))
+            if ctx.raised and name == "v_extend_prop" and kind_of(ctx.args.get("y")) == "prop" and \
+                    "strict_mismatch" not in ctx.labels:
+                # stored values are in normal form: what one Property holds is valid input for
+                # another Property of the same dtype and unit
+                j = ctx.U.index(ctx.args["y"])
+                src = ctx.pre["objs"][j]
+                if src["dtype"] == pre["dtype"] and src["dtype"] is not None and \
+                        src.get("unit") == pre.get("unit") and src["values"] and pre["values"]:
+                    return ("values.accepts-stored-form", "extend(Property) refused the stored values %r "
+                            "of a Property of the same dtype %r: %s: %s" %
+                            (src["values"], src["dtype"], ctx.outcome[1], ctx.outcome[2]))
             if ctx.raised:
                 exc = ctx.outcome[1]
                 if exc != "ValueError" and exc not in _OK_NONCONV.get(name, ()):
